@@ -12,7 +12,7 @@
 From Coq Require Import ZArith Bool List Reals.
 From Hy Require Import Base.Num Gen.Consts Gen.ConstsC04 Model.Scores
   Proofs.ScoresProofs Proofs.ScoresRealProofs Proofs.ScoresCatProofs Proofs.ScoresMissingProofs
-  Proofs.ScoresSummaryProofs.
+  Proofs.ScoresSpearmanProofs Proofs.ScoresSummaryProofs.
 Import ListNotations.
 Open Scope R_scope.
 
@@ -232,6 +232,23 @@ Theorem C04_invariances :
   kge RR EPS idT excl (scale c o) (scale c s) = kge RR EPS idT excl o s).
 Proof. exact sum_invariances. Qed.
 Print Assumptions C04_invariances.
+
+(* Spearman type (model of scipy.stats.spearmanr: Pearson correlation of the mid-ranks): on a
+   one-member ensemble corr is the Spearman coefficient of the transformed series; a perfect
+   simulation scores 1; the coefficient only depends on the order of the values *)
+Theorem C04_corr_spearman :
+  (forall fwd excl st obs sim,
+     length obs = length sim -> obs <> [] -> EPS <= sdR (map fwd obs) ->
+     corr RR EPS fwd excl st CSpearman obs (map (fun v => [v]) sim) =
+     SVal (spearman RR (map fwd obs) (map fwd sim))) /\
+  (forall fwd excl st obs,
+     EPS <= sdR (map fwd obs) ->
+     corr RR EPS fwd excl st CSpearman obs (map (fun v => [v]) obs) = SVal 1) /\
+  (forall f g x y,
+     (forall a b, a < b -> f a < f b) -> (forall a b, a < b -> g a < g b) ->
+     spearman RR (map f x) (map g y) = spearman RR x y).
+Proof. exact (conj corr_single_spearman_R (conj perfect_corr_spearman spearman_monotone)). Qed.
+Print Assumptions C04_corr_spearman.
 
 (* ================================================================== *)
 (* D'. series with missing values ([RN]: option R, None plays NaN),     *)
